@@ -294,6 +294,7 @@ class App:
     def __init__(self):
         self.trace = []
         self.count = 0
+        self.created = 0
         self.current = None      # (index, request, kind) of the outstanding later-response, or None
         self.fired = {}          # (index, k) -> list of results
         self.registered = {}     # index -> number of notifyFinish Deferreds asked for
@@ -314,6 +315,13 @@ class App:
             return None
 
         d.addBoth(fired)
+
+    def created_request(self, request):
+        """a notifyFinish Deferred asked for as soon as the request object exists -- while its head or body is still
+        being received (what an upload handler does to release resources; seeded change C21-3)"""
+        i = self.created
+        self.created += 1
+        self.watch(i, request)
 
     def handle(self, request):
         i = self.count
@@ -380,8 +388,21 @@ class LeafResource(resource.Resource):
         return server.NOT_DONE_YET if out is None else out
 
 
+def make_site_request(app):
+    class SiteRequest(server.Request):
+        def __init__(self, *a, **kw):
+            server.Request.__init__(self, *a, **kw)
+            app.created_request(self)
+
+    return SiteRequest
+
+
 def make_channel_request(app):
     class ChannelRequest(http.Request):
+        def __init__(self, *a, **kw):
+            http.Request.__init__(self, *a, **kw)
+            app.created_request(self)
+
         def process(self):
             out = app.handle(self)
             if out is not None:
@@ -412,6 +433,7 @@ class Run:
         self.transport = (PlainWire if mode.endswith("-plain") else Wire)(cap)
         if mode.startswith("site"):
             site = server.Site(LeafResource(self.app), reactor=self.clock)
+            site.requestFactory = make_site_request(self.app)
             self.proto = site.buildProtocol(None)
         else:
             fac = http.HTTPFactory(reactor=self.clock)
